@@ -44,6 +44,30 @@ def boundary_templates(rng):
             "{math:(}", "{math:)}", "{math:(1}", "{math:1|}", "{math:1&}", "{math:1=}", "{math:1!}", "{math:1<}", "{math:1>}", "{math:{var:}", "{math:{var:a}", "{var:a[}", "{var:a[]}",
             "{var:[0]}", "{var:a[0][}", "{var:a]}", "{var:]}", "{math:5 % 0}", "{math:5 / 0}", "{math:2 ^ 0.5}", "{math:0.5 / 100}", "{math:9223372036854775807 + 1}",
             "{math:-9223372036854775808 % -1}", "{math:1e400}", "{math:0x}", "{svar:a, }", "{svar:a,,}", "{svar:, {var:a}}"]
+    # loop heads in every attribute order, with set / value / group names that are prefixes of one another
+    # (the loop-variable lookup matches by prefix; value= before set= resolves the set against ... what?)
+    import itertools
+    attrs = {"set": ["items", "item", "list", "v", "obj"], "value": ["item", "items", "v", "lis", "o"], "group": ["g", "item"], "sort": ["ascend", "descend"]}
+    for order in itertools.permutations(["set", "value", "group", "sort"]):
+        for k in (2, 3, 4):
+            names = order[:k]
+            for pick in range(3):
+                head = " ".join('%s="%s"' % (a, attrs[a][(pick + i) % len(attrs[a])]) for i, a in enumerate(names))
+                vname = attrs["value"][(pick + names.index("value")) % 5] if "value" in names else "v"
+                out.append("<loop " + head + ">{var:" + vname + "}{var:" + vname + "[name]}</loop>")
+    out += ['<loop value="item" set="items">{var:item}</loop>', '<loop value="v" set="v">{var:v}</loop>', '<loop value="items" set="items">{var:items}</loop>',
+            '<loop set="list" value="v"><loop value="v1" set="v1x">{var:v1}</loop><loop value="w" set="v">{var:w}</loop></loop>',
+            '<loop set="items" value="it"><loop value="it2" set="it2[name]">{var:it2}</loop><loop value="x" set="it">{var:x}</loop></loop>']
+    # a loop at nesting level 6..12 inside an enclosing loop with several items: the loop-slot array grows while the
+    # enclosing loop is still iterating (every open <loop>, <if>, {svar:} and inline {if} counts as a level)
+    for d in (1, 2, 3, 6, 7, 8, 9, 12, 17):
+        out.append('<loop set="list" value="a">' + '<if case="1">' * d + '<loop set="list" value="b">.</loop>' + "</if>" * d + "{var:a}</loop>")
+        out.append('<loop set="list" value="a">' + '<if case="1">' * d + '<loop set="obj" value="b"><loop set="list" value="c">{var:c}</loop>{var:b}</loop>' + "</if>" * d + "{var:a};</loop>")
+        out.append('<loop set="list" value="a">{svar:a, ' + '{var:a}' + '}' + '<if case="1">' * d + '{if case="1" true="<loop>" false="{var:a}"}<loop set="list" value="b">{var:b}{var:a}</loop>' + "</if>" * d + "</loop>")
+    # sub tags of an inline if that cross the closing quote of their value, quotes inside tag names
+    out += ['{if case="1" true="{var:a"}}', '{if case="1" true="{var:a"} false="b"}', '{if case="0" true="t" false="{raw:a"}}', '{if case="1" true="x{math:1+1"}y"}',
+            '{if case="1" true="{var:a" false="{var:b"}}', "{if case='1' true='{var:a'}}", '{if case="1" false="{var:a}" true="{var:b"}"}', '{if case="1" true="{svar:a, {var:b"}}"}',
+            '<loop set="list" value="v">{if case="1" true="{var:v"}}</loop>', '{if case="1" true="{var:a}{var:b"}}x', '{if case="{var:a"}" true="t"}']
     # every proper prefix of complete templates of each tag kind (truncation at every offset)
     full = ['x{var:a[0][k]}y', '{raw:list[1]}', '{math:1 + {var:v} * (2 - 1) >= 3 && 1}', '{svar:a, {var:v}, {raw:a}, {math:1+1}}',
             '{if case="{var:v} == 1" true="T{var:a}" false="F{raw:a}"}', "{if case='1' true='y'}",
@@ -149,7 +173,7 @@ def check(tier):
     cases, dist = gen_fuzz(rng, n)
     bt = boundary_templates(rng)
     # deep nestings iterate the root at every level: a one-member root keeps the work linear
-    bcases = [(rng.choice([0, 1, 2, 3]), t, ({"a": "x"} if t.count("<loop") > 50 else {"a": "x", "v": 1, "list": [1, [2]], "obj": {"k": 1}})) for t in bt]
+    bcases = [(rng.choice([0, 1, 2, 3]), t, ({"a": "x"} if t.count("<loop") > 50 else {"a": "x", "v": 1, "list": [1, [2], 3], "obj": {"k": 1, "k2": "z"}, "items": [{"name": "n", "g": "p"}, {"g": "q", "name": "m"}], "item": [4, 5]})) for t in bt]
     bcases += [(0, t, [[1, 2], {"a": 1}, "s"]) for t in bt[:40] if t.count("<loop") < 50]
     allcases = bcases + cases
     impl, crashes = vlib.run_sharded(exe, [], lines_of(allcases), timeout=600)
